@@ -213,13 +213,13 @@ Desugar(x) ==
                                        ELSE EOne(<<pp[Len(pp)]>>)])
      [] x.op = "separated_seq" -> IF Len(k) <= 2 THEN ESeq(Tail1(k))   \* k[1] is the separator
                                   ELSE ESeq(<<k[2], k[1], E("separated_seq", <<k[1]>> \o SubSeq(k, 3, Len(k)), <<>>)>>)
-     [] x.op = "rep_string"   -> EString([i \in 1..(pp[1] * (Len(pp) - 1)) |-> pp[2 + ((i - 1) % (Len(pp) - 1))]])
-     [] x.op = "if_then"      -> E("if_then_else", <<k[1], k[2], IF Len(k) = 3 THEN k[3] ELSE ESucc>>, <<>>)   \* closed forms produced by gen/table.py
+     [] x.op = "rep_string"   -> ERep(pp[1], <<EString(Tail1(pp))>>)                 \* rep< N, string< Cs... > >
+     [] x.op = "rep_one_min_max" -> E("rep_min_max", <<EOne(<<pp[3]>>)>>, <<pp[1], pp[2]>>)   \* rep_min_max< Min, Max, one< C > >
      [] x.op \in ClassOps     -> E("ranges", <<>>, ClassRanges(x.op))
 Sugar == {"opt","plus","rep_min","rep","rep_opt","rep_max","rep_min_max","if_must","if_must_else","if_then_else",
           "opt_must","star_must","pad","pad_opt","list","list_must","list_tail","minus","strict","until","eolf",
           "everything","identifier","keyword","shebang","two","three","ellipsis","forty_two","string","ranges",
-          "separated_seq","rep_string","if_then"} \cup ClassOps
+          "separated_seq","rep_string","rep_one_min_max"} \cup ClassOps
 
 -----------------------------------------------------------------------------
 RECURSIVE DenX(_, _, _, _), Den(_, _, _, _), SeqK(_, _, _, _, _), SorK(_, _, _, _, _),
